@@ -10,7 +10,7 @@ RULE = ("engine proc: the real Processor in lock-step (trackProgress) with a scr
         "triggers with every mask (all, default data, single and combined event categories), replies in any order relative to later "
         "events, restarts, agent queries, clock advances, final CleanExit. Non-trivial = history contains transactions, a trigger and a "
         "reply; distinct = distinct op lists.")
-ASSUMPTIONS = ['run ids issued by the collector are distinct; one outstanding connect attempt per application', 'daemon-generated metrics other than the Seen/Sent/Dropped rows are filtered out of the comparison', 'a harvest trigger for a run that has already been shut down is not generated', 'time is advanced by shifting lastConnectAttempt/LastActivity; whole-second advances only']
+ASSUMPTIONS = ['run ids issued by the collector are distinct; a second connect attempt in flight for one application (back-off expired while the first is unanswered) is exercised by the `ov` histories, more than two are not', 'daemon-generated metrics other than the Seen/Sent/Dropped rows are filtered out of the comparison', 'a harvest trigger for a run that has already been shut down is not generated', 'time is advanced by shifting lastConnectAttempt/LastActivity; whole-second advances only']
 EXPLANATION = "L2 processor machine in Lean; every request the real processor makes is compared with the model's; the exactly-once ledger Spec runs on the implementation's requests."
 TECHNIQUE = 'Lean 4 theorems about the application state machine inside the L2 model (terminal states, still-valid iff run held, retry after back-off) + lock-step correspondence with the real Processor and a lifecycle monitor evaluated on its replies and connect requests'
 LEVEL_TEXT = "Theorems over the model's app state machine: 410 and invalid-license are absorbing (no connect request is ever emitted again in any continuation), still-valid iff the run is held, other connect failures leave the app retryable after the back-off; tied to processor.go/app.go by exact comparison of replies and requests over generated lifecycles, plus a monitor automaton run on the implementation's own outputs."
@@ -25,6 +25,7 @@ def plan(ctx):
     n = 60 if tier == "quick" else 4000
     seqs = [("life%d" % i, gen_proc.lifecycle_history(rng)) for i in range(n)]
     seqs += [("h%d" % i, gen_proc.history(rng, profile=rng.choice(["lifecycle", "mixed"]))) for i in range(n // 2)]
+    seqs += [("ov%d" % i, gen_proc.overlap_history(rng)) for i in range(n // 2)]
     return [("corpus", corpus(ID)), ("gen", seqs)]
 
 
